@@ -157,6 +157,7 @@ class Ctx:
             cov['functions_analysed'] = len(prog.funcs)
             cov['cfg_blocks'] = sum(len(f.d['cfg'].get('blocks', ())) for f in prog.funcs.values())
             cov['compdb_source'] = getattr(prog, 'compdb_source', '?')
+            cov['variables_mapped_to_reference_names'] = getattr(prog, 'realiased', 0)
         cov.update(self.stats)
         cov.update(self.extra)
         ev = {
